@@ -230,6 +230,18 @@ def run(args, rep):
                                              "    return inner_function(long_local_name), long_local_name\nprint outer_function(2)\n"),
             'py27-star-at-module': ("from re import *\nmodule_level_counter = 3\ndef reports(first_argument):\n    doubled_value = first_argument * 2\n"
                                     "    return doubled_value + module_level_counter, I\nprint reports(5)\n"),
+            # the exec statement with an explicit namespace: `exec code in g[, l]` and its tuple spelling are the same statement, and the namespace may well be the
+            # live frame / module dictionary without any of the trigger names being spelled
+            'py27-exec-in-frame-namespaces': ("import sys\nmodule_level_counter = 3\ndef reports(first_argument):\n    local_total = first_argument + 1\n    frame = sys._getframe()\n"
+                                              "    exec 'computed_value = local_total + module_level_counter' in frame.f_globals, frame.f_locals\n"
+                                              "    return sorted(frame.f_locals), frame.f_locals['computed_value']\nprint reports(1)\n"),
+            'py27-exec-tuple-form': ("import sys\nmodule_level_counter = 3\ndef reports(first_argument):\n    local_total = first_argument + 1\n    frame = sys._getframe()\n"
+                                     "    exec('computed_value = local_total + module_level_counter', frame.f_globals, frame.f_locals)\n"
+                                     "    return sorted(frame.f_locals), frame.f_locals['computed_value']\nprint reports(1)\n"),
+            'py27-exec-in-module-dictionary': ("import sys\nmodule_level_counter = 3\nmodule_dictionary = sys._getframe().f_globals\n"
+                                               "def reports(first_argument):\n    local_total = first_argument + 1\n    return local_total + module_level_counter\n"
+                                               "exec 'created_name = reports(module_level_counter)' in module_dictionary\nprint created_name\n"
+                                               "print sorted(n for n in module_dictionary if not n.startswith('__'))\n"),
             'py27-exec-in-nested': ("def outer_function(first_argument):\n    long_local_name = first_argument + 1\n    def inner_function():\n        exec 'pass'\n        return 1\n"
                                     "    return inner_function() + long_local_name\nprint outer_function(2)\n"),
         }
@@ -277,7 +289,7 @@ def run(args, rep):
     rep.rule = ('(a) enumerated scope programs of Rename.tla concretised with a module-level eval(); (a2) enumerated programs and every 4-deep chain of scopes with '
                 'the name x itself spelled eval / exec / locals / globals / vars and a renamable name in every function: tainted iff PyScope.tla resolves a read of x to the builtin; (b) 7 triggers + 4 look-alikes x 15 syntactic positions x 2 bodies x '
                 '16 combinations of rename_locals / rename_globals / hoist_literals / remove_builtin_exception_brackets [quick: 4] x preserve lists, star imports; '
-                '(c) the exec statement on 2.7; non-trivial = distinct (position, trigger, body) programs that contain a trigger')
+                '(c) the exec statement on 2.7 (bare, `in` one / two namespaces, tuple form) and star imports in function bodies; non-trivial = distinct (position, trigger, body) programs that contain a trigger')
     rep.extra.update({'programs_enumerated_by_tlc': total, 'scope_programs_replayed': len(progs), 'trigger_programs': len(jobs), 'skipped': skipped, 'own_name_trigger_programs': own_n, 'skipped_own': skipped2,
                       'checker_cmd': 'tlc Rename.tla; tlc Pipeline.tla; tlc Trace_Rename.tla; tlc Trace_Taint.tla'})
     rep.assumptions += ['look-alikes (obj.eval, the string "eval", a keyword named eval) are not constrained',
